@@ -6,7 +6,9 @@ from common import *
 if hasattr(sys, "set_int_max_str_digits"):
     sys.set_int_max_str_digits(0)   # the model's exact rationals have thousands of digits
 
-RULE = ("orders are enumerated (1..64 quick, 1..512 thorough, each on several intervals) plus a seeded sample of orders up "
+RULE = ("histories (c12.seq: sequences of orders in one process, incl. consecutive orders sharing (n+1)/2) are counted once per "
+        "distinct tuple of (order, half length); "
+        "orders are enumerated (1..64 quick, 1..512 thorough, each on several intervals) plus a seeded sample of orders up "
         "to 4000; a case is non-trivial when the model answers ok/err and is counted once per distinct "
         "(op, order, parity, interval class: canonical/shifted/reversed/far/tiny, outcome) key")
 CORR_ONLY = ["exactness to degree 2n-1 'for all n' is evaluated per n on the implementation's nodes/weights (Legendre basis and "
@@ -91,6 +93,28 @@ def generate(tier, seed, ctx):
         idx = sorted(set([0, 1, n // 2, (n - 1) // 2, n - 2, n - 1] + [rng.randrange(n) for _ in range(3 if not thorough else 8)]))
         R.append("c12.sel %d %s %s %s" % (n, hx(a), hx(b), ilst(idx)))
         ctx["cls"][len(R) - 1] = cls
+    # histories in one process: consecutive orders that differ but share (n+1)/2, same order on different
+    # intervals, random sequences (theorem gl_history_independent: the rule is a function of (n,a,b) only)
+    def _seq(mem):
+        R.append("c12.seq %d %s" % (len(mem), " ".join("%d %s %s" % (n, hx(a), hx(b)) for n, a, b in mem)))
+    def _iv():
+        return rng.choice(_intervals(rng, 7, thorough))[1:]
+    ks = [1, 2, 16] + [rng.randint(3, 32 if not thorough else 128) for _ in range(3 if not thorough else 10)]
+    for k in ks:
+        _seq([(2 * k, -1.0, 1.0), (2 * k - 1, -1.0, 1.0)])
+        _seq([(2 * k - 1, -1.0, 1.0), (2 * k, -1.0, 1.0)])
+        (a1, b1), (a2, b2) = _iv(), _iv()
+        _seq([(2 * k, a1, b1), (2 * k - 1, a2, b2), (2 * k, a2, b2), (2 * k - 1, a1, b1)])
+    for t in range(4 if not thorough else 12):
+        n = rng.randint(1, 40)
+        _seq([(n,) + _iv() for _ in range(3)] + [(n, -1.0, 1.0)])
+    for t in range(6 if not thorough else 24):
+        base = rng.randint(1, 30 if not thorough else 100)
+        mem = []
+        for _ in range(rng.randint(3, 6)):
+            base = max(1, base + rng.choice([-2, -1, -1, 0, 1, 1, 2]))
+            mem.append((base,) + _iv())
+        _seq(mem)
     # overloads on explicit data: equal and mismatched sizes
     for t in range(120 if thorough else 40):
         n = rng.randint(0, 12)
@@ -235,6 +259,91 @@ def _poly(c, x):
     return r
 
 
+def _cmp_model(n, x0, x1, xs, ws, tm, idx, orc, ctx):
+    """class B: the implementation's entries `idx` against the model's (tokens tm: x w x w ...)"""
+    sc = abs(Fraction(x0)) + abs(Fraction(x1))
+    mid, h = (Fraction(x0) + Fraction(x1)) / 2, (Fraction(x1) - Fraction(x0)) / 2
+    growth = 1 + Fraction(n, 64)
+    bad = None
+    for j, k in enumerate(idx):
+        mx, mw = fr(tm[2 * j]), fr(tm[1 + 2 * j])
+        dx, dw = abs(Fraction(xs[k]) - mx), abs(Fraction(ws[k]) - mw)
+        t = (mx - mid) / h if h else Fraction(0)
+        cnd = 2 * abs(t) / (1 - t * t) if abs(t) < 1 else Fraction(0)
+        tolw = abs(mw) * (NEWTON * cnd + K_WEIGHT * EPS * growth)
+        if sc:
+            _worst(ctx, "node/eps/(|a|+|b|)", float(dx / (EPS * sc)))
+        if tolw:
+            _worst(ctx, "weight/tol", float(dw / tolw))
+            _worst(ctx, "weight/eps-part-only", float(dw / (abs(mw) * K_WEIGHT * EPS * growth)))
+        if bad is None and (dx > K_NODE * EPS * sc or dw > tolw):
+            bad = (k, float(dx), float(dw))
+    if bad:
+        return [fail("prop" if orc else "corr", "nodes/weights differ from the reference rule",
+                     "n=%d index %d: |dx|=%.3g |dw|=%.3g" % ((n,) + bad))]
+    return []
+
+
+def _parse_rules(t, pos, k):
+    """k consecutive rules `n (2 x w)*n` from token list t; returns (list of (xs, ws) or None, pos)"""
+    rules = []
+    for _ in range(k):
+        n = int(t[pos]); pos += 1
+        xs, ws = [], []
+        for _ in range(n):
+            if int(t[pos]) != 2:
+                return None, pos
+            xs.append(t[pos + 1]); ws.append(t[pos + 2]); pos += 3
+        rules.append((xs, ws))
+    return rules, pos
+
+
+def compare_seq(rq, impl, model, ctx):
+    """history (class D, theorem gl_history_independent): every rule of a sequence computed in one process is
+    bit-identical to the same rule computed alone in a fresh process, and is a valid rule"""
+    a = rq.split()[1:]
+    k = int(a[0])
+    mem = [(int(a[1 + 3 * i]), fl(a[2 + 3 * i]), fl(a[3 + 3 * i])) for i in range(k)]
+    fs, both = std_outcome(rq, impl, model)
+    if tag(impl) == "timeout":
+        return [fail("prop", "Newton iteration does not terminate", rq[:80])]
+    if tag(impl) != "ok":
+        return fs or [fail("prop", "rule computation failed", impl[:100])]
+    t = toks(impl)
+    seq, pos = _parse_rules(t, 1, k)
+    if seq is None or pos >= len(t) or t[pos] != "alone":
+        return [fail("prop", "rule does not have n rows of (node, weight)", impl[:100])]
+    alone, pos = _parse_rules(t, pos + 1, k)
+    if alone is None:
+        return [fail("prop", "rule does not have n rows of (node, weight)", impl[:100])]
+    out = list(fs)
+    ctx["nontrivial"].add(("c12.seq", tuple((n, (n + 1) // 2) for n, _, _ in mem)))
+    bump(ctx, "seq:shared-half" if any(mem[i][0] != mem[i + 1][0] and (mem[i][0] + 1) // 2 == (mem[i + 1][0] + 1) // 2
+                                       for i in range(k - 1)) else "seq:other")
+    tm = toks(model) if tag(model) == "ok" else None
+    mpos = 1
+    for i, (n, x0, x1) in enumerate(mem):
+        (sx, sw), (ax, aw) = seq[i], alone[i]
+        hist = " after " + ", ".join("n=%d [%r,%r]" % m_ for m_ in mem[:i]) if i else " (first of the sequence)"
+        if (sx, sw) != (ax, aw):
+            out.append(fail("prop", "Gauss-Legendre rule depends on the calls made before it",
+                            "n=%d [%r,%r]%s: differs from the rule computed alone in a fresh process" % (n, x0, x1, hist)))
+        if len(sx) != n:
+            out.append(fail("prop", "rule does not have n rows of (node, weight)", "n=%d%s" % (n, hist)))
+        else:
+            xs, ws = [fl(v) for v in sx], [fl(v) for v in sw]
+            orc = oracle_rule(n, x0, x1, xs, ws, ctx)
+            for clause, det in orc:
+                out.append(fail("prop", clause, "n=%d [%r,%r]%s %s" % (n, x0, x1, hist, det)))
+            if tm is not None:
+                cnt = int(tm[mpos])
+                if cnt == n:
+                    out += _cmp_model(n, x0, x1, xs, ws, tm[mpos + 1:mpos + 1 + 2 * n], list(range(n)), bool(orc), ctx)
+        if tm is not None:
+            mpos += 1 + 2 * int(tm[mpos])
+    return out
+
+
 def compare(rq, impl, model, ctx):
     op = rq.split(" ", 1)[0]
     a = rq.split()[1:]
@@ -252,6 +361,8 @@ def compare(rq, impl, model, ctx):
             return [fail("prop", "default arguments are not n=30 / [-1,1]", impl[:100])]
         ctx["nontrivial"].add((op,))
         return []
+    if op == "c12.seq":
+        return compare_seq(rq, impl, model, ctx)
     fs, both = std_outcome(rq, impl, model)
     if op in ("c12.rule", "c12.sel"):
         n, x0, x1 = int(a[0]), fl(a[1]), fl(a[2])
@@ -278,26 +389,7 @@ def compare(rq, impl, model, ctx):
             idx = list(range(n)) if op == "c12.rule" else [int(t) for t in a[4:4 + int(a[3])]]
             if cnt != len(idx):
                 return out + [fail("corr", "model answered a different number of entries", "")]
-            sc = abs(Fraction(x0)) + abs(Fraction(x1))
-            mid, h = (Fraction(x0) + Fraction(x1)) / 2, (Fraction(x1) - Fraction(x0)) / 2
-            growth = 1 + Fraction(n, 64)
-            bad = None
-            for j, k in enumerate(idx):
-                mx, mw = fr(tm[1 + 2 * j]), fr(tm[2 + 2 * j])
-                dx, dw = abs(Fraction(xs[k]) - mx), abs(Fraction(ws[k]) - mw)
-                t = (mx - mid) / h if h else Fraction(0)
-                cnd = 2 * abs(t) / (1 - t * t) if abs(t) < 1 else Fraction(0)
-                tolw = abs(mw) * (NEWTON * cnd + K_WEIGHT * EPS * growth)
-                if sc:
-                    _worst(ctx, "node/eps/(|a|+|b|)", float(dx / (EPS * sc)))
-                if tolw:
-                    _worst(ctx, "weight/tol", float(dw / tolw))
-                    _worst(ctx, "weight/eps-part-only", float(dw / (abs(mw) * K_WEIGHT * EPS * growth)))
-                if bad is None and (dx > K_NODE * EPS * sc or dw > tolw):
-                    bad = (k, float(dx), float(dw))
-            if bad:
-                out.append(fail("prop" if orc else "corr", "nodes/weights differ from the reference rule",
-                                "n=%d index %d: |dx|=%.3g |dw|=%.3g" % ((n,) + bad)))
+            out += _cmp_model(n, x0, x1, xs, ws, tm[1:], idx, bool(orc), ctx)
         return out
     if op in ("c12.sumvals", "c12.sumfunc"):
         nv = int(a[0])
@@ -346,6 +438,8 @@ def compare(rq, impl, model, ctx):
 
 def oracle_only(rq, impl, ctx):
     op = rq.split(" ", 1)[0]
+    if op == "c12.seq":
+        return [f for f in compare_seq(rq, impl, "undef", ctx) if f["kind"] == "prop"]
     a = rq.split()[1:]
     if op in ("c12.rule", "c12.sel") and tag(impl) == "ok":
         n, x0, x1 = int(a[0]), fl(a[1]), fl(a[2])
